@@ -439,7 +439,42 @@ def g_small(ctx, rng, i):
         _try(poly.contains, g.Point(Q[int(rng.integers(len(Q)))]))
 
 
+def g_large(ctx, rng, i):
+    """The same exact questions on figures with integer coordinates of the order of 100 to 3000 (pixel coordinates), in integer and in
+    floating point representation, with the query grid scaled along."""
+    import geometer as g
+
+    s = [60, 300, 1000, 3000][i % 4]
+    as_float = (i // 4) % 2 == 1
+    off = gen.coords(rng, (2,), 2 * s, "int")
+    conv = (lambda v: np.asarray(v, dtype=float)) if as_float else (lambda v: np.asarray(v, dtype=np.int64))
+    if (i // 8) % 2 == 0:
+        a = gen.coords(rng, (2,), 4, "int")
+        d = gen.nonzero_vec(rng, 2, 3)
+        k = int(rng.integers(1, 5))
+        A, B = off + s * a, off + s * (a + k * d)
+        seg = _try(g.Segment, g.Point(conv(np.append(A, 1))), g.Point(conv(np.append(B, 1))))
+        if seg is None:
+            return
+        h = s // 2
+        qs = np.array([np.append(off + s * a + t * h * d, 1) for t in range(-4, 2 * k + 5)] + [np.append(off + s * (a + d + np.array([-d[1], d[0]])), 1), np.append(d, 0)])
+        _try(seg.contains, g.PointCollection(conv(qs)))
+        for q in qs[3:7]:
+            _try(seg.contains, g.Point(conv(q)))
+    else:
+        name = ZOO_NAMES[(i // 16) % len(ZOO_NAMES)]
+        V = [off + s * np.array(v) for v in ZOO[name]]
+        poly = _try((g.Triangle if len(V) == 3 else g.Polygon), *[g.Point(conv(np.append(v, 1))) for v in V])
+        if poly is None:
+            return
+        grid = _grid([np.array(v) for v in ZOO[name]])
+        Q = np.array([np.append(off + s * np.array([x, y]), 1) for x, y in grid])
+        _try(poly.contains, g.PointCollection(conv(Q)))
+        _try(poly.contains, g.Point(conv(Q[int(rng.integers(len(Q)))])))
+
+
 GROUPS = [
+    {"name": "large", "fn": g_large, "quick": 256, "thorough": 2048},
     {"name": "small", "fn": g_small, "quick": 256, "thorough": 2048},
     {"name": "polygons2d", "fn": g_polygons2d, "quick": len(ZOO_NAMES) * 3 * 16, "thorough": len(ZOO_NAMES) * 3 * 24 * 4},
     {"name": "polygons3d", "fn": g_polygons3d, "quick": len(ZOO_NAMES) * 24, "thorough": len(ZOO_NAMES) * 24 * 8},
